@@ -36,7 +36,7 @@ CFG = {
                   "(the plain-key theorem with the kitty protocol's own domain condition ToLower c = c plus the table law UpperHasLower, checked over ALL of Unicode on Go's tables by the hypl op: "
                   "the 27 title-case letters are decided OUTSIDE - not kitty key codes - and are still run on the real code, class outside:not-a-kitty-key-code). "
                   "F513 fixed (dd2d171): SS3 E = Begin (Spec.ss3Table row; ss3_is_spec). Props/C09CrossUni: cross_protocol_any_uni - the 376-chord cross-protocol table for EVERY oracle that agrees with Go on ASCII and the key codes "
-                  "and satisfies UpperHasLower (decodeKey_congr + xp_dom + sameForMatching_sound_agree; both hypotheses evaluated on Go's tables by hypk / hypl). matches_body_variadic_0/_1/_2 (zero, one, two variadic modifier arguments; every mat case also calls the real variadic forms). F209 (rule 6 on runes that are their own upper case) and F210 (Shift-text work-around ignored the reported "
+                  "and satisfies UpperHasLower (decodeKey_congr + xp_dom + sameForMatching_sound_agree; both hypotheses evaluated on Go's tables by hypk / hypl). matches_body_variadic (the extracted Matches body on ANY variadic modifier list = the model with the OR of the list; _0/_1/_2 instances; every mat case also calls the real variadic forms). F209 (rule 6 on runes that are their own upper case) and F210 (Shift-text work-around ignored the reported "
                   "shifted code) are fixed in the source (2174a90, 4ca4c24): cross_protocol_char_plain now only excludes lower-case runes WITH an "
                   "upper case of their own mapping to the key (27 title-case letters of Go's tables, not keys; Witness/F209 proves the hypothesis "
                   "is needed), cross_protocol_char_shift has no hypothesis on ToUpper any more (Witness/F210: regression theorems). "
